@@ -49,6 +49,12 @@ FIXED += [
     ("D10", ["C12"], "fix: cli group display accepts an update for the root path", "cli-root-update",
      "a response with an empty update path and no target made the grouped CLI display panic (index out of range in pathmap.add)"),
 ]
+FIXED += [
+    ("D1", ["C01"], "fix: gnmi_collector registers its configured targets with the cache", "collector-target-not-in-cache",
+     "any configured target: a client subscription through the collector failed with NotFound 'no such target' because the collector never added its targets to the cache"),
+    ("D2", ["C01"], "fix: gnmi_cli parses the subscribe request loaded with -proto_file", "cli-proto-file-ignored",
+     "gnmi_cli -proto_file f (Subscribe) failed to parse the request although the same text with -proto works"),
+]
 OPEN = [
     dict(id="D15", properties=["C19"], status="open", **{"class": "query-elem-edge-slash"}, part="query",
          what="a client query whose last element ends with '/' loses that element on the way to the server (e.g. [\"/\"] is indexed as []): ygot's string path parser drops the last part of a string ending in '/', even the escaped one pathToString produces; no small safe repair (the string round trip is what parses [k=v] keys)",
